@@ -212,6 +212,11 @@ float TECMP::CaptureModulePayload::getVoltage() const
 {
     return static_cast<float>(getHeader()->getVoltageWhole()) + static_cast<float>(getHeader()->getVoltageFraction()) / 100.0f;
 }
+bool TECMP::CaptureModulePayload::isValidPayload([[maybe_unused]] const uint8_t* data, const size_t size)
+{
+    return size >= sizeof(Header);
+}
+
 const TECMP::CaptureModulePayload::Header* TECMP::CaptureModulePayload::getHeader() const
 {
     return reinterpret_cast<const Header*>(payloadData.data());
